@@ -484,6 +484,7 @@ func (l *leanFile) strDef(n string, v string) {
 }
 
 var fingerprints = map[string]string{}
+
 func (l *leanFile) write(outDir string) {
 	fmt.Fprintf(&l.sb, "\nend OsmoVerif.Gen.%s\n", l.name)
 	path := filepath.Join(outDir, l.name+".lean")
